@@ -264,12 +264,17 @@ def run_job(job):
             p_kind = 'below' if p.bit_length() <= l + f + k + 1 else 'above'
             nt = ck_type(part, sectypes, cfg, 'fxp' if f else 'int', l, f, p, 2, p_kind)
             part.case(nontrivial=nt)
-    if len(part.samples) < 1:
+    if (m, t, k) == (3, 1, 30):
         T = sectypes.SecFxp(8, 4)
         part.sample(dict(type='SecFxp(8,4)', m=m, t=t, k=k, modulus=T.field.modulus, bits=T.field.modulus.bit_length()))
     part.note('type_cases', part.evaluations)
     part.note('configs', [f'm={m},t={t},k={k}'])
     return part
+
+
+def coverage_extra(tier, seed, total):
+    # independent of the order in which jobs finish
+    return {'samples': sorted(total.samples, key=repr), 'configs': sorted(total.notes.get('configs', []))}
 
 
 def replay(case):
